@@ -11,7 +11,7 @@
    last_check and of the levels); elp_optimal follows. *)
 From Coq Require Import List Arith NArith Bool Lia Permutation.
 From PrefVerif Require Import Lib.Val Lib.Contig Lib.Subsets Model.SP Model.Deletion Model.ELPDP
-                              Proofs.SP Proofs.Deletion Proofs.ELPDP Proofs.ELPComplete.
+                              Proofs.SP Proofs.Deletion Proofs.ELPDP Proofs.ELPComplete Proofs.ELPLevels.
 Import ListNotations.
 
 (* ---------------------------------------------------------------------------------------------- *)
@@ -285,3 +285,139 @@ Proof.
                             destruct (G x1 x2 (or_introl (conj eq_refl eq_refl)) (eq_sym Hpl)) as [H|(H1 & H2 & H3)]];
         [now left|right|now left|right]; (split; [|split; [cbn [length]; lia|assumption]]); intros a; rewrite H1; simpl; intuition auto.
 Qed.
+
+(* ---------------------------------------------------------------------------------------------- *)
+(* 5. runs, the potential, and the rounds of the dynamic programme                                 *)
+
+Lemma In_skipn_nth {T} (l : list T) n x d : In x (skipn n l) -> exists k, n <= k < length l /\ nth k l d = x.
+Proof.
+  revert l. induction n as [|n IH]; intros l H.
+  - simpl in H. apply (In_nth _ _ d) in H. destruct H as (k & Hk & E). exists k. split; [lia|assumption].
+  - destruct l as [|y l]; [contradiction|]. simpl in H. destruct (IH l H) as (k & Hk & E). exists (S k). simpl. split; [lia|assumption].
+Qed.
+
+Lemma In_firstn {T} n (l : list T) y : In y (firstn n l) -> In y l.
+Proof.
+  revert l. induction n as [|n IH]; intros l Hy; [contradiction|]. destruct l; [contradiction|].
+  destruct Hy as [<-|Hy]; [now left|right; now apply IH].
+Qed.
+
+Lemma mkset_in x1 x2 a : In a (mkset x1 x2) <-> a = x1 \/ a = x2.
+Proof.
+  unfold mkset. destruct (N.eqb_spec x1 x2) as [->|]; [simpl; intuition auto|].
+  destruct (N.ltb x1 x2); simpl; intuition auto.
+Qed.
+
+Lemma mkset_nodup x1 x2 : NoDup (mkset x1 x2).
+Proof.
+  unfold mkset. destruct (N.eqb_spec x1 x2) as [->|Hne]; [repeat constructor; auto|].
+  destruct (N.ltb x1 x2); repeat constructor; simpl; intuition congruence.
+Qed.
+
+Section Dom.
+Variables (alts : list N) (votes : list (list N)).
+Hypothesis Halts : NoDup alts.
+Hypothesis Hvotes : forall v, In v votes -> NoDup v /\ incl alts v.
+Variable pair_first : N -> N -> bool.
+Variable ext_order : list (list N) -> list (list N).
+Hypothesis Hext : forall l X, In X (ext_order l) -> In X l.
+Let m := length alts.
+Let Ls := get_L_sets alts votes.
+
+Inductive Run : nat -> paxis -> list N -> Prop :=
+| run0 : Run 0 pa_empty []
+| runS j A Y i X A' : Run j A Y -> j < i -> i <= m -> In X (eligible ext_order i m Y Ls votes) ->
+                      place pair_first A X votes = (A', true) -> Run i A' X.
+
+Lemma Ls_incl : forall L, In L Ls -> incl L alts.
+Proof. apply L_sets_incl. Qed.
+
+Lemma Run_inv j A Y : Run j A Y -> Inv alts votes A Y.
+Proof.
+  induction 1 as [|j A Y i X A' _ IH _ _ Hel Hpl]; [apply Inv_empty|].
+  destruct (eligible_spec alts votes ext_order Hext i m Y Ls X Ls_incl Hel) as (x1 & x2 & -> & H1 & H2 & Hlc).
+  now apply (place_inv alts votes Hvotes pair_first A Y x1 x2 A' true IH H1 H2 Hlc Hpl).
+Qed.
+
+(* alternatives of python level > k *)
+Definition remP (k : nat) : list N := filter (fun c => negb (memN c (concat (Lspec alts votes k)))) alts.
+Definition phi (A : paxis) (k : nat) : nat := length (filter (fun c => negb (memN c (pa_elems A))) (remP k)).
+
+Lemma remP_in k a : In a (remP k) <-> In a alts /\ ~ In a (concat (Lspec alts votes k)).
+Proof. unfold remP. rewrite filter_In, negb_true_iff, memN_false. reflexivity. Qed.
+
+Lemma remP_nodup k : NoDup (remP k).
+Proof. now apply NoDup_filter. Qed.
+
+Lemma remP_mono k a : In a (remP (S k)) -> In a (remP k).
+Proof.
+  rewrite !remP_in. intros [H1 H2]. split; [assumption|]. intros H. apply H2. cbn [Lspec]. rewrite concat_app.
+  apply in_or_app. now left.
+Qed.
+
+Lemma level_in_remP k j a : k <= j -> at_level alts votes j a -> In a (remP k).
+Proof.
+  intros Hkj Hl. apply remP_in. split; [apply (level_alts alts votes Hvotes j a Hl)|]. intros H.
+  apply in_Lspec_level in H. destruct H as (j0 & Hj0 & Hl0).
+  apply (levels_disjoint alts votes Hvotes j0 j a); auto. lia.
+Qed.
+
+Lemma elig_in_rem i Y X : 1 <= i -> i <= m -> In X (eligible ext_order i m Y Ls votes) ->
+  forall x, In x X -> In x (remP (i - 1)).
+Proof.
+  intros Hi1 Him HX x Hx. unfold eligible in HX. apply Hext in HX. apply nodup_In in HX.
+  assert (ELs : Ls = Lspec alts votes m) by apply get_L_sets_spec.
+  assert (HLi : forall y, In y (nth (i - 1) Ls []) -> at_level alts votes (i - 1) y).
+  { intros y Hy. unfold at_level. rewrite <- (Lspec_nth alts votes m (i - 1)) by lia. now rewrite <- ELs. }
+  apply in_flat_map in HX. destruct HX as (x1 & H1 & HX). apply in_flat_map in HX. destruct HX as (x2 & H2 & HX).
+  destruct (last_check votes Y x1 x2); [|contradiction]. destruct HX as [<-|[]].
+  apply mkset_in in Hx. destruct Hx as [-> | ->].
+  - apply (level_in_remP (i - 1) (i - 1)); [lia|now apply HLi].
+  - apply dedupN_incl in H2. apply in_app_or in H2. destruct H2 as [H2|H2].
+    + apply (level_in_remP (i - 1) (i - 1)); [lia|now apply HLi].
+    + apply in_concat in H2. destruct H2 as (L & HL & Hx2). apply In_firstn in HL.
+      apply (In_skipn_nth _ _ _ []) in HL. destruct HL as (k & Hk & E).
+      apply (level_in_remP (i - 1) k); [lia|]. unfold at_level.
+      rewrite ELs, Lspec_length in Hk. rewrite <- (Lspec_nth alts votes m k) by lia. rewrite <- ELs, E. exact Hx2.
+Qed.
+
+Lemma phi_le A k : phi A k <= length (remP k).
+Proof.
+  unfold phi. generalize (remP k). intros l. induction l as [|y l IH]; simpl; [lia|].
+  destruct (negb (memN y (pa_elems A))); simpl; lia.
+Qed.
+
+Lemma phi_mono A k : phi A (S k) <= phi A k.
+Proof.
+  unfold phi. apply NoDup_incl_length; [apply NoDup_filter, remP_nodup|].
+  intros a Ha. apply filter_In in Ha. apply filter_In. split; [apply remP_mono|]; tauto.
+Qed.
+
+(* an accepted (or locked) placement at round i uses up potential *)
+Lemma phi_step j A Y i X A' ok : Run j A Y -> 1 <= i -> i <= m -> In X (eligible ext_order i m Y Ls votes) ->
+  place pair_first A X votes = (A', ok) -> pa_eqb A' A = false ->
+  phi A' i + length X <= phi A (i - 1) /\ pa_len A' = pa_len A + length X.
+Proof.
+  intros HR Hi1 Him Hel Hpl Hne. pose proof (Run_inv j A Y HR) as HI.
+  pose proof (elig_in_rem i Y X Hi1 Him Hel) as Hrem.
+  destruct (eligible_spec alts votes ext_order Hext i m Y Ls X Ls_incl Hel) as (x1 & x2 & -> & H1 & H2 & Hlc).
+  destruct (place_shape pair_first A x1 x2 votes A' ok Hpl) as [[-> _]|(Hel' & Hlen & _)];
+    [rewrite pa_eqb_refl in Hne; discriminate|]. split; [|assumption].
+  pose proof (inv_fresh alts votes Hvotes A Y x1 x2 HI H1 H2 Hlc) as Hfresh.
+  unfold phi. rewrite Nat.add_comm, <- app_length. apply NoDup_incl_length.
+  -     assert (Hd : forall a, In a (mkset x1 x2) -> ~ In a (filter (fun c => negb (memN c (pa_elems A'))) (remP i))).
+    { intros a Ha Hf. apply filter_In in Hf. destruct Hf as [_ Hf]. apply negb_true_iff, memN_false in Hf.
+      apply Hf. apply Hel'. now right. }
+    pose proof (mkset_nodup x1 x2) as N1.
+    assert (N2 : NoDup (filter (fun c => negb (memN c (pa_elems A'))) (remP i))) by apply NoDup_filter, remP_nodup.
+    clear -Hd N1 N2. induction (mkset x1 x2) as [|y l IH]; [exact N2|]. simpl. inversion N1; subst. constructor.
+    + intros H. apply in_app_or in H. destruct H as [H|H]; [contradiction|]. apply (Hd y); [now left|assumption].
+    + apply IH; [|assumption]. intros a Ha. apply Hd. now right.
+  - intros a Ha. apply in_app_or in Ha. apply filter_In. destruct Ha as [Ha|Ha].
+    + split; [now apply Hrem|]. apply negb_true_iff, memN_false. intros HaA. destruct (Hfresh a HaA) as (N1 & N2 & _).
+      apply mkset_in in Ha. destruct Ha; congruence.
+    + apply filter_In in Ha. destruct Ha as [Ha Hf]. split.
+      * replace i with (S (i - 1)) in Ha by lia. now apply remP_mono.
+      * apply negb_true_iff, memN_false. apply negb_true_iff, memN_false in Hf. intros HaA. apply Hf. apply Hel'. now left.
+Qed.
+End Dom.
